@@ -53,8 +53,16 @@ class Ctx:
         self.seed = seed
         self.t0 = time.time()
         self.out = os.path.join(CACHE, "run", f"{prop}-{tier}-{seed}")
+        if REPO != "/repo":   # a scratch worktree under test gets a run directory of its own
+            self.out += "-" + hashlib.sha1(REPO.encode()).hexdigest()[:8]
+        import fcntl
+        os.makedirs(os.path.join(CACHE, "locks"), exist_ok=True)
+        self._lock = open(os.path.join(CACHE, "locks", os.path.basename(self.out) + ".lock"), "w")
+        fcntl.flock(self._lock, fcntl.LOCK_EX)   # held until the process exits
         shutil.rmtree(self.out, ignore_errors=True)
         os.makedirs(self.out, exist_ok=True)
+        self.bindir = os.path.join(self.out, "bin")
+        os.makedirs(self.bindir, exist_ok=True)
         os.makedirs(os.path.join(VERIF, "evidence"), exist_ok=True)
         os.makedirs(os.path.join(VERIF, "replays"), exist_ok=True)
         self.violations = []      # (replay_path, what, no_input)
@@ -170,7 +178,7 @@ class Ctx:
     def fake_bpf_overlay(self):
         """Regenerate the synthetic bpf2go file from /repo's current bpf_stub.go / bpf_utils.go and
         return the overlay entry that lets package control build WITHOUT dae_stub_ebpf."""
-        gen = os.path.join(CACHE, "gen")
+        gen = os.path.join(self.out, "gen")
         os.makedirs(gen, exist_ok=True)
         outp = os.path.join(gen, f"bpf_fake_{self.prop}.go")
         if os.path.exists(outp):
@@ -208,7 +216,7 @@ var c01ProductionOptimizerExprs = []string{"(fallback copy)"}
         /repo's current control/control_plane.go (translators/optchain) as a Go file for package control
         (functions c01ProductionOptimizers / c01ProductionOptimizerExprs used by the routing harnesses).
         Returns (overlay dict, description)."""
-        gen = os.path.join(CACHE, "gen")
+        gen = os.path.join(self.out, "gen")
         os.makedirs(gen, exist_ok=True)
         chain = os.path.join(gen, f"optchain_{self.prop}.go")
         if os.path.exists(chain):
@@ -249,7 +257,8 @@ var c01ProductionOptimizerExprs = []string{"(fallback copy)"}
         rep[os.path.join(pkgdir, "zz_verif_util_test.go")] = util
         ov = os.path.join(self.out, f"overlay_{out_name}.json")
         json.dump({"Replace": rep}, open(ov, "w"), indent=1)
-        binp = os.path.join(CACHE, "bin", out_name + ".test")
+        # per run directory (property, tier, seed): concurrent runs never share a binary path
+        binp = os.path.join(self.bindir, out_name + ".test")
         os.makedirs(os.path.dirname(binp), exist_ok=True)
         if os.path.exists(binp):
             os.unlink(binp)
@@ -359,6 +368,11 @@ var c01ProductionOptimizerExprs = []string{"(fallback copy)"}
                     line += " no-failing-input-found"
                 self.say(line)
             return 1
+        if n_obl == 0 or n_dis != n_obl or evaluations <= 0:
+            # nothing was proved or nothing was compared (a build that did not run, an empty stream):
+            # that is a failure of the check, never a pass
+            self.say(f"CHECK-ERROR no verdict: obligations={n_obl} discharged={n_dis} evaluations={evaluations}")
+            return 2
         self.say(f"OK property={self.prop} tier={self.tier} seed={self.seed} obligations={n_obl} discharged={n_dis} "
                  f"evaluations={evaluations} distinct={distinct} wall={time.time()-self.t0:.1f}s")
         return 0
@@ -416,5 +430,16 @@ def main_entry(run_fn_by_prop):
         rc = run_fn_by_prop(prop)(ctx)
     except subprocess.TimeoutExpired as e:
         ctx.say(f"CHECK-ERROR timeout: {e}")
+        rc = 2
+    except SystemExit:
+        raise
+    except BaseException as e:
+        # an error of the machinery itself is never a verdict about the code: exit status 1 is
+        # reserved for reported violations
+        import traceback
+        traceback.print_exc()
+        ctx.say(f"CHECK-ERROR internal error of the check ({type(e).__name__}: {e}); no verdict")
+        rc = 2
+    if rc not in (0, 1, 2):
         rc = 2
     sys.exit(rc)
